@@ -22,8 +22,8 @@ TEST_HELPERS = ('BasicDistributionTest', 'EvaluateDistributionUniformity', 'Enco
 def exported_api(prog):
     out = set()
     for name, fn in prog.funcs.items():
-        if fn.get('synthetic') or 'blocks' not in fn or name.split('.')[-1] in TEST_HELPERS:
-            continue
+        if fn.get('synthetic') or 'blocks' not in fn or name.split('.')[-1] in TEST_HELPERS or 'zz_verif' in str(fn.get('pos', '')):
+            continue      # (functions of the harness overlay files are not part of the API)
         m = re.match(r'^\(\*?(github\.com/onflow/crypto(?:/hash|/random)?)\.([A-Za-z0-9_]+)\)\.([A-Za-z0-9_]+)$', name)
         if m:
             typ, meth = m.group(2), m.group(3)
